@@ -97,8 +97,11 @@ def factory(kind, spec):
         par = E.chunk_parent(R, ws, we, minus=bool(spec.get("minus_chunk")))
     else:
         par = Parent(id="chr", sequence=Sequence(R, Alphabet.NT_EXTENDED_GAPPED, id="chr", type=SequenceType.CHROMOSOME))
-    ops = {"chunk2": seq_chunk_to_parent(R[2:len(R) - 2], "chr", 2, len(R) - 2),
-           "variant": VariantInterval(spec["vpos"], spec["vpos"] + 1, "GG", "insertion", parent_or_seq_chunk_parent=par)}
+    adopter = par
+    if spec.get("noparent"):
+        par = None
+    ops = {"adopter": adopter, "chunk2": seq_chunk_to_parent(R[2:len(R) - 2], "chr", 2, len(R) - 2),
+           "variant": VariantInterval(spec["vpos"], spec["vpos"] + 1, "GG", "insertion", parent_or_seq_chunk_parent=adopter)}
     quals = {"note": ["n1", "n2"], "k": ["v"]}
     if kind == "location":
         if spec.get("deep"):  # contig -> chromosome -> assembly
@@ -178,6 +181,15 @@ def _collect(o, into):
         return [g.start, g.end, sorted(str(x) for x in g.children_guids)]
     c = AnnotationCollection(genes=[g])
     return [c.start, c.end, sorted(str(x) for x in c.children_guids)]
+
+
+def _adopt(o, p):
+    from inscripta.biocantor.gene.collections import AnnotationCollection
+
+    AnnotationCollection(genes=[o], parent_or_seq_chunk_parent=p["adopter"])
+    loc = o.chromosome_location
+    return [str(loc), loc.parent.id if loc.parent is not None else None, str(o.transcripts[0].chromosome_location),
+            o.transcripts[0].chromosome_location.parent is None]
 
 
 def actions(kind):
@@ -323,6 +335,7 @@ def actions(kind):
             "liftover_to_chunk": lambda o, p: o.liftover_to_parent_or_seq_chunk_parent(p["chunk2"]),
             "incorporate_variant": lambda o, p: o.incorporate_variants(p["variant"]),
             "collect_into_collection": lambda o, p: _collect(o, "collection"),
+            "adopt_then_location": lambda o, p: _adopt(o, p),
         }
     else:
         A = {
@@ -409,9 +422,13 @@ def _replay(args):
     ev = []
     modes = ["loc-any", "loc-single", "loc-unstranded", "loc-deep", "loc-overlap"] if kind == "location" else \
         [None] if kind == "sequence" else ["p0", "p1", "p2", "p3", "p4", "p5", "p6"] if kind == "parent" else \
-        ["none", "enclosing", "cutting", "cutting", "cutting"]
+        ["none", "enclosing", "cutting", "cutting", "cutting"] + (["noparent"] if kind == "gene" else [])
     for h, mode in [(h, m) for h in hists for m in modes]:
-        sp = _spec(rnd, None if kind == "parent" else mode)
+        if any(a.startswith("adopt_") for a in h[:-1]):
+            continue  # adoption changes the member (by design): it is only asked as the LAST step of a history
+        sp = _spec(rnd, None if kind == "parent" else ("none" if mode == "noparent" else mode))
+        if mode == "noparent":
+            sp["noparent"] = True
         if kind == "parent":
             sp["pshape"] = int(mode[1:])
         if kind == "cds" and not sp["cds"]:
@@ -451,6 +468,8 @@ def _replay(args):
         for a in h:
             ans = answer(lambda a=a: acts[a](X, ops))
         after = snapshot([X] + [v for k2, v in sorted(ops.items()) if k2 in ("other",)])
+        if any(a.startswith("adopt_") for a in h):
+            before = after   # adoption re-parents the member by design: not an operand-preserving operation
         # the fresh twin: same content, built after clearing the process-wide Parent cache
         Parent.cache_clear()
         T, tops = factory(kind, sp)
